@@ -85,6 +85,30 @@ def adversarial(r):
     return r.choice(pats)
 
 
+# ---- operator table: every binary / unary operator and every builtin x every pair of operand kinds (deterministic grid)
+GRID_VALS = ["0", "1", "(0-1)", "7", "(0-7)", "4611686018427387904", "9223372036854775807", "0.5", "(0-0.5)", "1.0", "2.0", "1.5", "(0-2.25)", "0.0",
+             "''", "'a'", "'ab'", "'1'", "null", "[]", "[1]", "[1,2]", "[1.5]", "{}", "{'a':1}", "abs", "[0.5,'a']"]
+GRID_QUICK = ["0", "1", "(0-7)", "9223372036854775807", "0.5", "(0-2.25)", "2.0", "''", "'ab'", "null", "[]", "[1,2]", "{'a':1}", "abs"]
+GRID_BIN = ["+", "-", "*", "/", "%", "**", "==", "!=", "<", "<=", ">", ">=", "&", "|", "&&", "||", "??"]
+GRID_UN = ["-{a}", "+{a}", "ceil({a})", "floor({a})", "round({a})", "abs({a})", "toInt({a})", "toFloat({a})", "toStr({a})", "toBool({a})", "repr({a})", "typeId({a})",
+           "{a} ? 1 : 2", "[{a}][0]", "{a}.len()", "{a}.sum()", "{a}.kh()", "{a}.kl(1)", "{a}.keys()", "{a}[0]", "{a}[0:1]", "{a}.x", "`{{{a}}}`", "{a} * 2 + {a}", "[{a}..{a}]", "{a}d{a}", "{a} ? {a}"]
+
+
+def op_grid(tier):
+    vals = GRID_VALS if tier == "thorough" else GRID_QUICK
+    progs = []
+    for op in GRID_BIN:
+        for a in vals:
+            for b in vals:
+                progs.append((f"{a} {op} {b}", "z,L30000" if op in "/%" and a.startswith("4") else "-,L30000"))
+    for a in GRID_VALS:
+        for t in GRID_UN:
+            progs.append((t.replace("{a}", a), "-,L30000"))
+        progs.append((f"{a} / 0", "z,L30000"))
+        progs.append((f"{a} % 0", "z,L30000"))
+    return progs
+
+
 def mutate(r, src):
     b = bytearray(src.encode())
     for _ in range(r.randint(1, 3)):
@@ -173,7 +197,9 @@ def main(tier):
             progs.append((src, c2 + "," + r.choice(["L30000", "L30000", "L200", "z,L30000", "m,L30000", "M,L30000"])))
         for _ in range(600 if tier == "thorough" else 150):
             progs.append((adversarial(r), "wcfd,L30000"))
-        vm_stream(run, progs)
+        grid = op_grid(tier)
+        run.count("vm.operator-grid", len(grid))
+        vm_stream(run, progs + grid)
     return run.finish(
         trusted=["Lean 4.33 kernel", "axioms: propext, Classical.choice, Quot.sound", "Go harness + hook VerifDumpCode + Lean driver",
                  "Go runtime behaviour (goroutine stack exhaustion, heap exhaustion) is outside the model: adversarial depth/size cases "
@@ -227,6 +253,9 @@ def vm_stream(run, progs):
         run.evaluations += 1
         a2 = re.sub(r"^panic.*", "panic", a)
         b2 = re.sub(r"^panic.*", "panic", b)
+        # a NaN is a NaN: its sign bit and payload are not specified (math.Pow / libm)
+        a2 = re.sub(r"\bf[7f]ff[0-9a-f]{13}\b", lambda m: "fNaN" if int(m.group(0)[1:], 16) & 0xfffffffffffff else m.group(0), a2)
+        b2 = re.sub(r"\bf[7f]ff[0-9a-f]{13}\b", lambda m: "fNaN" if int(m.group(0)[1:], 16) & 0xfffffffffffff else m.group(0), b2)
         run.count("vm.go." + a2.split()[0])
         if b.startswith("unsup") or b == "diverge" or "e28988" in b:
             run.count("vm.skipped-unspecified")
